@@ -479,7 +479,14 @@ func planProbe(c *caseSpec) {
 	if !seen {
 		maxPTS = -epoch
 	}
-	ts0 := epoch + maxPTS + probeStep
+	// continue after the largest presentation time seen, and not before
+	// presentation time 0 of the final epoch (a sender whose report says "the clock
+	// reads X now" goes on with timestamps from X, not with ones that lie before it)
+	next := maxPTS + probeStep
+	if next < 0 {
+		next = 0
+	}
+	ts0 := epoch + next
 	if ts0 < 0 || ts0+12*probeStep > 0xffffffff {
 		// the final epoch cannot be continued inside the 32-bit timestamp range (an
 		// anchor near the top of the range, or a corrupted timestamp near it):
